@@ -60,7 +60,7 @@ end
 
 /-- no realised flow weight and no mixing-matrix entry reads the compartment values (weights may
 depend on parameters and on time) -/
-def stateFree (m : Model α) : Bool :=
+def stateFreeI (m : Model α) : Bool :=
   m.flows.all (fun f => !usesState (realised f)) &&
     m.mixingMats.all (fun mat => mat.all (fun row => row.all (fun e => !usesState e)))
 
@@ -189,7 +189,7 @@ def multOf (m : Model α) (per : List (List α)) (f : Flow α) : α :=
   | .error _ => 1
 
 /-- population factor of a flow (as the runner computes it) -/
-def popOf (m : Model α) (xc : List α) (f : Flow α) : α :=
+def popOfFlow (m : Model α) (xc : List α) (f : Flow α) : α :=
   if isCrude f.kind then sumL xc else if isNonPop f.kind then 1 else xc.getD ((srcIx m f).getD 0) 0
 
 /-- total death rate, as a sum over the death flows with a weight *function* `W` -/
@@ -199,7 +199,7 @@ def deathsBy (m : Model α) (W : Flow α → α) (xc : List α) : α :=
 /-- the rate of a flow as a function of the flow (given a weight function `W` and a multiplier
 function `M`): no reference to the position of the flow in the flow list -/
 def rateBy (m : Model α) (W : Flow α → α) (xc : List α) (M : Flow α → α) (f : Flow α) : α :=
-  let r1 := W f * popOf m xc f * (if isInfection f.kind then M f else 1)
+  let r1 := W f * popOfFlow m xc f * (if isInfection f.kind then M f else 1)
   if isReplacement f.kind then r1 * deathsBy m W xc else r1
 
 /-- a per-compartment vector of `m` read through the relabelling given by another compartment list
